@@ -92,7 +92,7 @@ def _streams_info(pack_pos: int, folders: list[dict], with_crc: bool, substreams
 
 
 def make_7z(entries: list[dict], *, coder: bytes = LZMA, layout: str = "solid", with_crc: bool = True, with_attrs: bool = True,
-            encoded_header: bool = False, mixed_coders: list[bytes] | None = None) -> bytes:
+            encoded_header: bool = False, mixed_coders: list[bytes] | None = None, header_coder: bytes = LZMA) -> bytes:
     """entries: [{"name": str, "data": bytes | None (directory), "empty_stream": optional override, "phantom": bool}]
 
     ``phantom``: the entry is *not* flagged as empty stream although no data stream exists for it.
@@ -138,8 +138,8 @@ def make_7z(entries: list[dict], *, coder: bytes = LZMA, layout: str = "solid", 
     header += fi + b"\x00"
     header = bytes(header)
     if encoded_header:
-        hp, hprops = _encode(LZMA, header)
-        hf = [{"coder": LZMA, "props": hprops, "packed": hp, "files": [header]}]
+        hp, hprops = _encode(header_coder, header)
+        hf = [{"coder": header_coder, "props": hprops, "packed": hp, "files": [header]}]
         # encoded header = PackInfo + UnpackInfo only (no SubStreamsInfo)
         enc = b"\x17" + _streams_info(len(packed_all), hf, with_crc=True, substreams=False) + b"\x00"
         body = packed_all + hp
